@@ -43,7 +43,7 @@ simplify = cc.simplify
 
 def execute(run):
     from .. import coresim
-    eng = coresim.Engine(run, 'C02')
+    eng = coresim.Engine(run, 'C02', {'C02'})
     eng.execute()
     return eng.result({'C02'}, nontrivial=(
         getattr(eng, 'n_monitored', 0) - len(eng.world.data) >= 3
